@@ -46,6 +46,14 @@ def lin_scale(group, *coeff_lists):
     return s
 
 
+def rot_block(group, M):
+    """rotation block of a transformation matrix (None for groups without one / bundles)"""
+    d = {"SO2": 2, "SE2": 2, "SO3": 3, "SE3": 3, "SE_2_3": 3, "SGal3": 3}.get(group)
+    if d is None:
+        return None
+    return M[0:d, 0:d]
+
+
 def V(prop, group, op, output, tags, line, what, err, tol):
     return dict(property=prop, group=group, op=op, output=output, tags=tags, request=line,
                 what=what, err=float(err), tol=float(tol))
@@ -384,6 +392,12 @@ def j_c04(case, resps):
         kt = tol * (s if "minus" in nm or nm == "between" else 1.0)
         if d > kt:
             out.append(V("C04", grp, nm, "value", case["tags"], case["reqs"][k], nm + " is not the documented composition", d, kt))
+        elif rot_block(grp, got) is not None:
+            # the rotation part of the documented composition does not involve the translations at all
+            dr = oracle.maxdiff(rot_block(grp, got), rot_block(grp, refs[k]))
+            if dr > 1e-9:
+                out.append(V("C04", grp, nm, "rotation", case["tags"], case["reqs"][k],
+                             nm + ": rotation part is not that of the documented composition", dr, 1e-9))
     ang_t = rot_angle_of_tangent(grp, t)
     rel = rot_angle_of_tangent(grp, vals[2])
     if len(resps) >= 7:
@@ -393,6 +407,15 @@ def j_c04(case, resps):
             kt = 1e-9 * s * s
             if d > kt:
                 out.append(V("C04", grp, "(X+t)-X", "value", case["tags"], case["reqs"][5], "(X+t)-X != t", d, kt))
+            else:
+                # angular components of the round trip do not depend on where X is
+                i, da = 0, 0.0
+                for kind, n in gen.GROUPS[grp]["tan"]:
+                    if kind in ("ang1", "ang3"):
+                        da = max([da] + [abs(a - b) for a, b in zip(back[i:i + n], t[i:i + n])])
+                    i += n
+                if da > 1e-9 and not grp.startswith("B:"):
+                    out.append(V("C04", grp, "(X+t)-X", "rotation", case["tags"], case["reqs"][5], "(X+t)-X != t in the angular components", da, 1e-9))
         fwd, _ = parse(resps[6])      # X+(Y-X)
         if fwd is not None and fin(fwd) and rel < math.pi - 1e-3:
             d = oracle.maxdiff(g.T(mpl(fwd)), TY)
